@@ -171,6 +171,10 @@ class ProcessJob:
     def pre_same_world(self, command):
         return command.process.supvisors is self.supvisors and info_shape(command.process)
 
+    def pre_command_invariant(self, command):
+        """ProcessCommand.update_identifier is the only writer of identifier / instance_status and sets both"""
+        return (command.identifier is None) == (command.instance_status is None) and command.identifier != ''
+
     def post_only_stopped_processes(self, command, result, old):
         """'a process that is already running ... is not requested again'"""
         return implies(not old.command.process._state in STOPPED_STATES, no_effect() and not result)
@@ -202,10 +206,91 @@ class ProcessJob:
 
     def post_no_resource(self, command, result, old):
         """'If no instance qualifies nothing is sent and the process is reported FATAL ('No resource available')'"""
-        failed = ((effect_at('fail_command', 0)[0] is command.process
+        failed = ((effect_at('fail_command', 0)[0] is old.command.process
                    and effect_at('fail_command', 0)[3] == 'No resource available' and not result)
                   if count_effects('fail_command') == 1 else False)
         return implies(old.command.process._state in STOPPED_STATES and count_effects('start_command') == 0, failed)
 
     def post_request_or_failure(self, command):
         return count_effects('start_command') + count_effects('fail_command') <= 1
+
+
+# --------------------------------------------------------------------------------------------------------------------
+# DESIGN C04.4: the mapper invariant behind get_nodes_load ("per machine, the sum over the SET of its identifiers")
+def nodes_duplicate_free(mapper):
+    return forall(mapper.nodes, lambda m: forall(int, int, lambda a, b: implies(
+        0 <= a and a < b and b < len(mapper.nodes[m]), mapper.nodes[m][a] != mapper.nodes[m][b])))
+
+
+@contract('internal_com.mapper:LocalNetwork.__init__', props=['C04'])
+class LocalNetworkInit:
+    """ASSUMED (uuid / socket / network interfaces): initialises the fields of the new object only"""
+    assumed = True
+    raises = ()
+
+    def modifies(self):
+        return [field(self, 'machine_id'), field(self, 'fqdn'), field(self, 'addresses'), field(self, 'logger')]
+
+
+@contract('internal_com.mapper:LocalNetwork.from_payload', props=['C04'])
+class LocalNetworkFromPayload:
+    """ASSUMED for the address part: 'Take the address information as it is' - the machine id is the payload's"""
+    assumed = True
+    raises = ()
+
+    def modifies(self):
+        return [field(self, 'machine_id'), field(self, 'fqdn'), field(self, 'addresses')]
+
+    def post_machine_id(self, payload):
+        return 'machine_id' in payload and self.machine_id == payload['machine_id']
+
+
+@contract('internal_com.mapper:LocalNetwork.from_network', props=['C04'])
+class LocalNetworkFromNetwork:
+    """ASSUMED for the address part (socket.getfqdn): the machine id is copied from the remote view"""
+    assumed = True
+    raises = ()
+    types = {'network': 'LocalNetwork'}
+
+    def modifies(self):
+        return [field(self, 'machine_id'), field(self, 'fqdn'), field(self, 'addresses')]
+
+    def post_machine_id(self, network):
+        return self.machine_id == network.machine_id
+
+
+@contract('internal_com.mapper:SupvisorsMapper._assign_stereotypes', props=['C04'])
+class AssignStereotypes:
+    """ASSUMED frame: only the stereotype tables change (self.stereotypes, the stereotypes of the instance id and the lists
+    held by self.stereotypes); in particular no list filed in mapper.nodes is touched.  The lists held by the stereotype
+    table are not described (this contract is only meant for the proof about mapper.nodes)."""
+    assumed = True
+    raises = ()
+    types = {'stereotypes': 'List[str]'}
+
+    def modifies(self, identifier):
+        return [contents(self.stereotypes), field(self._instances[identifier], 'stereotypes')]
+
+
+@contract('internal_com.mapper:SupvisorsMapper.identify', props=['C04', 'C14'])
+class MapperIdentify:
+    """DESIGN C04.4: 'needs the mapper invariant "nodes[m] is duplicate-free", proved over identify' (the only writer of
+    mapper.nodes, structural scan).  Statement: node load = 'the expected_loading of everything running on that node'
+    - counted once."""
+    raises = ()
+
+    def pre_payload(self, payload):
+        return ('identifier' in payload and 'network' in payload and 'stereotypes' in payload
+                and payload['identifier'] in self._instances
+                and self._instances[payload['identifier']].identifier == payload['identifier'])
+
+    def pre_invariant(self):
+        return nodes_duplicate_free(self)
+
+    def post_filed_once(self, payload, old):
+        """the invariant survives the append iff a handshake of an instance that is already filed under its machine does
+        not add a second entry (stated in this quantifier-light form so that the solver decides it either way)"""
+        ident = payload['identifier']
+        m = self._instances[ident].remote_view.machine_id
+        return implies(m in old.self.nodes and ident in old.self.nodes[m],
+                       len(self.nodes[m]) == len(old.self.nodes[m]))
